@@ -422,6 +422,8 @@ func checkC18(p *Prog, l *Ledger) {
 				case ok:
 				case strings.HasPrefix(s.Desc, "fmt."):
 					ok, why = true, "formatted into a diagnostic or String() text"
+				case s.Desc == "errors.New":
+					ok, why = true, "made the text of an error value (a diagnostic, not data)"
 				case strings.Contains(s.Desc, "norm."):
 					ok, why = true, "normalised for display"
 				}
